@@ -7,7 +7,7 @@ patch=$(realpath -q "$id" 2>/dev/null); [ -f "$patch" ] || patch=/verif/seeded/$
 wt=/tmp/mut_$$_$(basename $id)
 git -C /repo worktree add --detach $wt HEAD -f >/dev/null 2>&1 || { echo "worktree failed"; exit 3; }
 git -C $wt apply $patch || { echo "APPLY FAILED $patch"; git -C /repo worktree remove --force $wt; exit 3; }
-VERIF_REPO=$wt VERIF_REPLAY_DIR=/tmp/mutreplays /verif/check $prop "$@"
+VERIF_REPO=$wt VERIF_REPLAY_DIR=/tmp/mutreplays ${VERIF_HOME:-/verif}/check $prop "$@"
 rc=$?
 git -C /repo worktree remove --force $wt
 echo "MUTANT $id on $prop -> exit $rc"
